@@ -260,6 +260,91 @@ type jarg struct{ js, coq string }
 func numArg(f float64) jarg {
 	return jarg{JSNum(f), "ANum " + Cdouble(f)}
 }
+// the Number handed over from Go in a given integer / float kind (Otto.Set); its Number value is float64(v)
+func (g *c09gen) goTyped(kind string, f float64) (jarg, bool) {
+	var v interface{}
+	fits := func(lo, hi float64) bool { return f == math.Trunc(f) && f >= lo && f <= hi }
+	switch kind {
+	case "uint64":
+		if !fits(0, 18446744073709549568) {
+			return jarg{}, false
+		}
+		v = uint64(f)
+	case "uint":
+		if !fits(0, 18446744073709549568) {
+			return jarg{}, false
+		}
+		v = uint(f)
+	case "int64":
+		if !fits(-9223372036854775808, 9223372036854774784) {
+			return jarg{}, false
+		}
+		v = int64(f)
+	case "int":
+		if !fits(-9223372036854775808, 9223372036854774784) {
+			return jarg{}, false
+		}
+		v = int(f)
+	case "int32":
+		if !fits(-2147483648, 2147483647) {
+			return jarg{}, false
+		}
+		v = int32(f)
+	case "uint32":
+		if !fits(0, 4294967295) {
+			return jarg{}, false
+		}
+		v = uint32(f)
+	case "int16":
+		if !fits(-32768, 32767) {
+			return jarg{}, false
+		}
+		v = int16(f)
+	case "uint16":
+		if !fits(0, 65535) {
+			return jarg{}, false
+		}
+		v = uint16(f)
+	case "int8":
+		if !fits(-128, 127) {
+			return jarg{}, false
+		}
+		v = int8(f)
+	case "uint8":
+		if !fits(0, 255) {
+			return jarg{}, false
+		}
+		v = uint8(f)
+	case "float32":
+		if float64(float32(f)) != f && !math.IsNaN(f) {
+			return jarg{}, false
+		}
+		v = float32(f)
+	default:
+		v = f
+	}
+	if g.cur == nil {
+		g.cur = g.vm
+	}
+	g.gs = (g.gs + 1) % 64
+	name := fmt.Sprintf("__gp%d", g.gs)
+	Must(g.cur.Set(name, v))
+	return jarg{fmt.Sprintf("%s/*Go %s(%v) via Otto.Set*/", name, kind, v), "ANum " + Cdouble(f)}, true
+}
+
+var goKinds = []string{"uint64", "uint", "int64", "int", "int32", "uint32", "int16", "uint16", "int8", "uint8", "float32", "float64"}
+
+// extreme values per kind (as their float64 Number value)
+var goExtremes = []struct {
+	kind string
+	f    float64
+}{
+	{"uint64", 9223372036854775808}, {"uint64", 18446744073709549568}, {"uint64", 9223372036854777856}, {"uint", 9223372036854775808},
+	{"uint", 18446744073709549568}, {"int64", 9223372036854774784}, {"int64", -9223372036854775808}, {"int", -9223372036854775808},
+	{"int32", -2147483648}, {"int32", 2147483647}, {"uint32", 4294967295}, {"int16", -32768}, {"uint16", 65535}, {"int8", -128}, {"int8", -1}, {"uint8", 255},
+	{"float32", 1.5}, {"float32", -0.5}, {"float32", math.Inf(1)}, {"float32", math.NaN()},
+}
+
 func strArg(g *c09gen, u []uint16) jarg {
 	return jarg{g.strExpr(u), "AStr " + Cunits(u)}
 }
@@ -278,6 +363,22 @@ var hugePositions = []float64{2147483647, 2147483648, 4294967295, 4294967296, 42
 // a position argument around the interesting lengths of the strings involved
 func (g *c09gen) position(lens []int) jarg {
 	r := g.env.Rng
+	if r.Intn(8) == 0 { // the same position handed in from Go in some numeric kind
+		if r.Intn(3) == 0 {
+			e := Pick(r, goExtremes)
+			if a, ok := g.goTyped(e.kind, e.f); ok {
+				return a
+			}
+		}
+		a := g.position(lens)
+		var bits uint64
+		if _, err := fmt.Sscanf(a.coq, "ANum %d", &bits); err == nil {
+			if t, ok := g.goTyped(Pick(r, goKinds), math.Float64frombits(bits)); ok {
+				return t
+			}
+		}
+		return a
+	}
 	base := Pick(r, lens)
 	switch k := r.Intn(40); {
 	case k < 16: // around a boundary
@@ -496,8 +597,11 @@ func (g *c09gen) callArgs(m methSpec, u []uint16, fl int) []jarg {
 		}
 	case "MIndexOf", "MLastIndexOf":
 		nd := g.needle(u, fl)
-		if r.Intn(25) == 0 {
-			args = append(args, Pick(r, []jarg{argUndef, argNull, argTrue, numArg(1), numArg(0)}))
+		if r.Intn(12) == 0 { // no arguments at all: the search string is "undefined"
+			break
+		}
+		if r.Intn(12) == 0 {
+			args = append(args, Pick(r, []jarg{argUndef, argNull, argTrue, argFalse, numArg(1), numArg(0), numArg(10), numArg(math.NaN()), numArg(-3)}))
 		} else {
 			args = append(args, strArg(g, nd))
 		}
@@ -606,6 +710,17 @@ func (g *c09gen) receiverUnits(m methSpec) ([]uint16, int) {
 				u[i] = Pick(r, caseUnits)
 			}
 			return u, 2
+		}
+	}
+	switch m.coq {
+	case "MIndexOf", "MLastIndexOf", "MSplit", "MLocaleCompare", "MConcat":
+		if r.Intn(7) == 0 { // the text that a missing / non-string argument converts to, somewhere inside
+			w := Units(Pick(r, []string{"undefined", "undefined", "undefined", "null", "true", "false", "NaN", "1", "0", "10", "-3"}))
+			u := append(append(g.units(fl, 3), w...), g.units(fl, 3)...)
+			if r.Intn(3) == 0 {
+				u = append(u, w...)
+			}
+			return u, fl
 		}
 	}
 	if m.coq == "MLocaleCompare" && r.Intn(4) == 0 {
@@ -1118,9 +1233,15 @@ func (g *c09gen) propsHistory() {
 		}
 	}
 	ue := g.strExpr(u)
-	init := "var s = new String(" + ue + ");"
+	init := "var p = " + ue + "; var s = new String(" + ue + ");"
 	if r.Intn(4) == 0 {
-		init = "var s = Object(" + ue + ");"
+		init = "var p = " + ue + "; var s = Object(" + ue + ");"
+	}
+	prim := func() string { // the primitive: the variable, or an equal string built again
+		if r.Intn(3) == 0 {
+			return "(" + ue + ")"
+		}
+		return "p"
 	}
 	if o := RunJS(vm, init); o.Err != nil || o.Panic != nil {
 		panic(fmt.Sprintf("c09: props init %s: %v %v", init, o.Err, o.Panic))
@@ -1158,7 +1279,7 @@ func (g *c09gen) propsHistory() {
 		last = k
 		var src, op string
 		conv := cvalB
-		switch q := r.Intn(20); {
+		switch q := r.Intn(22); {
 		case q < 4:
 			l := Pick(r, lvls)
 			v := g.propValue()
@@ -1222,7 +1343,7 @@ func (g *c09gen) propsHistory() {
 		case q < 11:
 			src, op = fmt.Sprintf("s[%d]", k), "OGet "+Cz(k)
 		case q < 12:
-			src, op = fmt.Sprintf("(%s)[%d]", ue, k), "OGetPrim "+Cz(k)
+			src, op = fmt.Sprintf("%s[%d]", prim(), k), "OGetPrim "+Cz(k)
 		case q < 13:
 			src, op = fmt.Sprintf("%d in s", k), "OIn "+Cz(k)
 		case q < 14:
@@ -1248,6 +1369,31 @@ func (g *c09gen) propsHistory() {
 					return cres(o)
 				}
 				return keysRes(o.Val.String())
+			}
+		case q >= 18 && r.Intn(2) == 0: // through the primitive: writes vanish with the temporary wrapper
+			switch w := r.Intn(12); {
+			case w < 3:
+				v := g.propValue()
+				src, op = fmt.Sprintf("%s[%d] = %s; undefined", prim(), k, v.js), fmt.Sprintf("OSetPrim %s %s", Cz(k), v.coq)
+			case w < 5:
+				m := methods[r.Intn(8)]
+				src, op = fmt.Sprintf("%s.%s = function(){ return \"?\" }; undefined", prim(), m.js), "OSetPrimMethod "+m.coq
+			case w < 6:
+				nl := r.Int63n(n + 3)
+				src, op = fmt.Sprintf("%s.length = %d; undefined", prim(), nl), "OSetLenPrim "+Cz(nl)
+			case w < 8:
+				m := methods[r.Intn(8)]
+				args := g.callArgs(m, u, 2)
+				src, op = prim()+"."+m.js+"("+strings.Join(jsOf(args), ",")+")", fmt.Sprintf("OCallPrim %s %s", m.coq, coqOf(args))
+				conv = cres
+			case w < 9:
+				src, op = fmt.Sprintf("%s.hasOwnProperty(%d)", prim(), k), "OHasOwnPrim "+Cz(k)
+			case w < 10:
+				src, op = fmt.Sprintf("delete %s[%d]", prim(), k), "ODeletePrim "+Cz(k)
+			case w < 11:
+				src, op = prim()+".length", "OLenPrim"
+			default:
+				src, op = fmt.Sprintf("%s[%d]", prim(), k), "OGetPrim "+Cz(k)
 			}
 		default:
 			m := methods[r.Intn(8)] // charAt .. split on the String object itself
@@ -1275,9 +1421,78 @@ func (g *c09gen) pinnedProps(u, opsCoq string, srcs []string) {
 	g.env.Add(fmt.Sprintf("CProps %s %s %s", u, opsCoq, Clist(obs)), "pinned props "+strings.Join(txt, " ;; "), "pinned", true)
 }
 
+// deterministic families that run first on every seed
+func (g *c09gen) pinnedFamilies() {
+	// (a) empty argument lists: every method, receivers that contain the text a missing argument converts to
+	for _, text := range []string{"xundefined", "undefined", "é中 is undefined here", "a,undefined"} {
+		u := Units(text)
+		lit := JSStr(u)
+		for _, m := range methods {
+			forms := []struct{ coq, src string }{
+				{"RLit " + Cunits(u), "(" + lit + ")." + m.js + "()"},
+				{"RCallStr " + Cunits(u), "String.prototype." + m.js + ".call(" + lit + ")"},
+				{"RCallStr " + Cunits(u), "String.prototype." + m.js + ".apply(" + lit + ", [])"},
+				{"RObj " + Cunits(u), "String.prototype." + m.js + ".call({toString:function(){return " + lit + "}})"},
+				{"RStrObj " + Cunits(u), "new String(" + lit + ")." + m.js + "()"},
+			}
+			for _, f := range forms {
+				g.pinnedCall(m.coq, f.coq, "[]", f.src)
+			}
+		}
+	}
+	// (b) positions handed in from Go in every numeric kind, at the extremes of the kind and small
+	type tv struct {
+		kind string
+		f    float64
+	}
+	vals := []tv{}
+	for _, e := range goExtremes {
+		vals = append(vals, tv{e.kind, e.f})
+	}
+	for _, k := range goKinds {
+		vals = append(vals, tv{k, 2})
+	}
+	for _, rc := range []struct{ text, needle string }{{"abcdefabc", "c"}, {"é中üxé", "é"}} {
+		u := Units(rc.text)
+		lit, nd := JSStr(u), JSStr(Units(rc.needle))
+		ndc := "AStr " + Cunits(Units(rc.needle))
+		one, two := "ANum "+Cdouble(1), "ANum "+Cdouble(2)
+		for _, v := range vals {
+			a, ok := g.goTyped(v.kind, v.f)
+			if !ok {
+				continue
+			}
+			rcq := "RLit " + Cunits(u)
+			g.pinnedCall("MCharAt", rcq, "["+a.coq+"]", lit+".charAt("+a.js+")")
+			g.pinnedCall("MCharCodeAt", rcq, "["+a.coq+"]", lit+".charCodeAt("+a.js+")")
+			g.pinnedCall("MIndexOf", rcq, "["+ndc+"; "+a.coq+"]", lit+".indexOf("+nd+","+a.js+")")
+			g.pinnedCall("MLastIndexOf", rcq, "["+ndc+"; "+a.coq+"]", lit+".lastIndexOf("+nd+","+a.js+")")
+			g.pinnedCall("MSlice", rcq, "["+one+"; "+a.coq+"]", lit+".slice(1,"+a.js+")")
+			g.pinnedCall("MSlice", rcq, "["+a.coq+"]", lit+".slice("+a.js+")")
+			g.pinnedCall("MSubstring", rcq, "["+two+"; "+a.coq+"]", lit+".substring(2,"+a.js+")")
+			g.pinnedCall("MSubstr", rcq, "["+two+"; "+a.coq+"]", lit+".substr(2,"+a.js+")")
+			g.pinnedCall("MSubstr", rcq, "["+a.coq+"]", lit+".substr("+a.js+")")
+			g.pinnedCall("MSplit", rcq, "[AStr []; "+a.coq+"]", lit+".split(\"\","+a.js+")")
+		}
+	}
+	for _, v := range vals {
+		if a, ok := g.goTyped(v.kind, v.f); ok {
+			src := "String.fromCharCode(" + a.js + ", 97)"
+			o := RunJS(g.vm, src)
+			g.env.Add(fmt.Sprintf("CFrom [%s; ANum %s] (%s)", a.coq, Cdouble(97), cres(o)), fmt.Sprintf("pinned from %s -> %s", src, obsText(o)), "pinned", true)
+		}
+	}
+	// (c) writes through a primitive string vanish with the temporary wrapper (8.7.2), later reads and calls see nothing
+	hello := "[104;233;108;108;111]"
+	g.pinnedProps(hello, "[OSetPrim 7 (PStr [120]); OGetPrim 7; OHasOwnPrim 7; OSetPrimMethod MCharAt; OCallPrim MCharAt [ANum "+Cdouble(1)+"]; OSetPrimMethod MSlice; OCallPrim MSlice [ANum "+Cdouble(1)+"; ANum "+Cdouble(3)+"]; OSetLenPrim 2; OLenPrim; OGetPrim 1; OGetPrim 7; OCallPrim MCharAt [ANum "+Cdouble(1)+"]; OSetPrim 1 (PStr [120]); OGetPrim 1; ODeletePrim 1; ODeletePrim 7]",
+		[]string{`var p = "héllo"; p[7] = "x"; undefined`, `p[7]`, `p.hasOwnProperty("7")`, `p.charAt = function(){return "?"}; undefined`, `p.charAt(1)`,
+			`p.slice = function(){return "sliced"}; undefined`, `p.slice(1,3)`, `p.length = 2; undefined`, `p.length`, `p[1]`,
+			`"héllo"[7]`, `"héllo".charAt(1)`, `"héllo"[1] = "x"; undefined`, `"héllo"[1]`, `delete p[1]`, `delete p[7]`})
+}
+
 func runC09(env *Env) {
 	env.Import = "Otto.C09.Corr"
-	env.Rule = "receiver strings of 0-8 code points, and of 0-40 units with the non-ASCII characters first / last / spread / only after an ASCII prefix of 8k-1, 8k, 8k+1 bytes with a 0-6 byte ASCII tail, over ASCII / Latin-1 / BMP (2- and 3-byte UTF-8, U+FFFD, whitespace set) / astral pairs / lone surrogates, written as literals, escapes, concatenations, String.fromCharCode, String(object) or Go strings handed over with Otto.Set; position arguments around 0 and the byte, rune and unit lengths of receiver and needle, negative, fractional, NaN, +-Infinity, -0, undefined/null/boolean, omitted, 2^31, 2^32, 2^53, 2^63 neighbourhood, 1e19; receivers string / String object / .call on string, number, boolean, object with toString, undefined, null; histories of 2-5 calls on one variable; histories of 2-5 calls on one runtime whose receiver and arguments are objects with logging, throwing (caught by the script or not) and re-entrant toString/valueOf, compared on result and conversion log; calls under a replaced String.prototype.toString; histories of 4-10 index-property operations (assignment, defineProperty data/accessor, delete, s[k], u[k], in, hasOwnProperty, getOwnPropertyDescriptor, keys, getOwnPropertyNames, method calls) on a String object, String.prototype and Object.prototype with keys below, at and beyond the length; every generated case counts as non-trivial when distinct"
+	env.Rule = "receiver strings of 0-8 code points, and of 0-40 units with the non-ASCII characters first / last / spread / only after an ASCII prefix of 8k-1, 8k, 8k+1 bytes with a 0-6 byte ASCII tail, over ASCII / Latin-1 / BMP (2- and 3-byte UTF-8, U+FFFD, whitespace set) / astral pairs / lone surrogates, written as literals, escapes, concatenations, String.fromCharCode, String(object) or Go strings handed over with Otto.Set; deterministic families on every seed (every method with an empty argument list on receivers containing \"undefined\"; every position slot fed from Go in each numeric kind at the extremes of the kind; writes through a primitive); position arguments, also handed in from Go as uint64/uint/int64/.../float32 values, around 0 and the byte, rune and unit lengths of receiver and needle, negative, fractional, NaN, +-Infinity, -0, undefined/null/boolean, omitted, 2^31, 2^32, 2^53, 2^63 neighbourhood, 1e19; receivers string / String object / .call on string, number, boolean, object with toString, undefined, null; histories of 2-5 calls on one variable; histories of 2-5 calls on one runtime whose receiver and arguments are objects with logging, throwing (caught by the script or not) and re-entrant toString/valueOf, compared on result and conversion log; calls under a replaced String.prototype.toString; histories of 4-10 index-property operations (assignment, defineProperty data/accessor, delete, s[k], u[k], in, hasOwnProperty, getOwnPropertyDescriptor, keys, getOwnPropertyNames, method calls) on a String object, String.prototype and Object.prototype with keys below, at and beyond the length; every generated case counts as non-trivial when distinct"
 	g := &c09gen{env: env, vm: otto.New()}
 	r := env.Rng
 
@@ -1312,6 +1527,8 @@ func runC09(env *Env) {
 		o := RunJS(vm, src)
 		env.Add(fmt.Sprintf("CPatched [122;122;122] MIndexOf (RLit [97;97;97]) [AStr [97]] (%s)", cres(o)), fmt.Sprintf("pinned patched %s -> %s", src, obsText(o)), "pinned", true)
 	}
+
+	g.pinnedFamilies()
 
 	for env.Count() < env.N {
 		switch k := r.Intn(100); {
